@@ -180,6 +180,20 @@ func walFacts() {
 	} else {
 		fail("wal: Add not found")
 	}
+	// (*WAL).read: the slot taken by the issuer is given back by a `defer` that is the first
+	// statement of the function, i.e. on every path (C19_slots_exact)
+	first := ""
+	if fd := method(files, "WAL", "read"); fd != nil && fd.Body != nil && len(fd.Body.List) > 0 {
+		if ds, ok := fd.Body.List[0].(*ast.DeferStmt); ok {
+			if se, ok := ds.Call.Fun.(*ast.SelectorExpr); ok {
+				first = "defer " + se.Sel.Name
+			}
+		}
+	} else {
+		fail("wal: read not found")
+	}
+	emit("/-- first statement of `(*WAL).read` when it is a deferred method call -/")
+	emit("def walReadFirstStatement : String := %s", leanStr(first))
 	// storage.NoOverWrite itself
 	sfiles := parseDir("pkg/storage")
 	_, sexprs := constLits(sfiles)
